@@ -415,6 +415,26 @@ class _Inliner:
                 if SX.is_node(s.get(key)):
                     out[key] = self._wrap(self.stmt(s[key], stack, depth), s[key])
             return pre + [out]
+        if k == 'forrange' and depth > 0 and SX.is_node(SX.strip(s.get('range'))) and SX.strip(s['range']).get('k') in ('call', 'mcall'):
+            # `for (x : layoutOrder(program))` — the range expression is evaluated once, before the loop: a helper there is expanded
+            # in front of it and the loop runs over the helper's result
+            r0 = SX.strip(s['range'])
+            h = self.callee(r0, stack)
+            r = self.expand(r0, h, stack) if h is not None else None
+            if r is not None and r[1] is not None:
+                pre, rexp = r
+                rr = SX.strip(rexp)
+                if SX.is_node(rr) and rr.get('k') == 'ref':
+                    out = dict(s, range=rexp)
+                else:
+                    self.serial += 1
+                    tid = '__range@%d' % self.serial
+                    pre = pre + [{'k': 'decls', 'ln': s.get('ln'), 'd': [{'k': 'var', 'id': tid, 'name': tid, 'type': r0.get('t') or h.ret or 'auto', 'init': rexp,
+                                                                          'ln': s.get('ln'), 'col': s.get('col')}]}]
+                    out = dict(s, range={'k': 'ref', 'kind': 'var', 'id': tid, 'name': tid, 't': r0.get('t') or h.ret or 'auto', 'ln': s.get('ln')})
+                if SX.is_node(s.get('body')):
+                    out['body'] = self._wrap(self.stmt(s['body'], stack, depth), s['body'])
+                return pre + [out]
         if k in ('for', 'while', 'do', 'forrange', 'switch', 'case', 'default'):
             out = dict(s)
             for key in ('body', 's'):
@@ -1306,3 +1326,54 @@ def _finders(prog):
         out[F.name] = (F, rows, vid, b['c'])
     prog._memptr_finders = out
     return out
+
+
+# ---- pure local closures are expressions -------------------------------------------------------------------------------------------
+def beta_pure_closures(prog, f):
+    """`auto parentOf = [this](const C* c) -> const C* { return c->base.empty() ? nullptr : findClass(c->base); };  …  cur = parentOf(cur)`
+    — a local closure that is never reassigned, whose body is one `return <expression>` and that captures nothing by value
+    (only `this` and/or variables by reference) denotes that expression: its calls with side-effect-free arguments are replaced by
+    the expression (parameters substituted).  Returns the new body, or None when nothing applies."""
+    if not f.body:
+        return None
+    written = set()
+    for n in SX.walk(f.body):
+        w = SX.write_target(n)
+        if w and SX.is_node(SX.strip(w[0])) and SX.strip(w[0]).get('k') == 'ref':
+            written.add(SX.strip(w[0]).get('id'))
+    clos = {}
+    for v in SX.walk(f.body):
+        if v['k'] == 'var' and v.get('id') not in written and SX.is_node(v.get('init')) and SX.strip(v['init']).get('k') == 'lambda':
+            lam = SX.strip(v['init'])
+            body = lam.get('body')
+            st = body.get('body') if SX.is_node(body) and body.get('k') == 'block' else None
+            if not (st and len(st) == 1 and st[0]['k'] == 'return' and SX.is_node(st[0].get('e'))):
+                continue
+            if any(not c.get('byref') and c.get('name') != 'this' for c in lam.get('captures', [])) or lam.get('defcap') == 1:
+                continue        # a by-value capture freezes a value at creation time
+            if any(x.get('k') == 'lambda' for x in SX.walk(st[0]['e'])) or not pure(st[0]['e']):
+                continue
+            # parameters are used as values only
+            clos[v['id']] = lam
+    if not clos:
+        return None
+    done = [0]
+
+    def rw(n):
+        if isinstance(n, list):
+            return [rw(x) for x in n]
+        if not isinstance(n, dict):
+            return n
+        n2 = {k: rw(v) if isinstance(v, (dict, list)) else v for k, v in n.items()}
+        if n2.get('k') == 'opcall' and n2.get('op') == '()' and n2.get('args'):
+            c = SX.strip(n2['args'][0])
+            if SX.is_node(c) and c.get('k') == 'ref' and c.get('id') in clos:
+                lam = clos[c['id']]
+                args = n2['args'][1:]
+                if len(lam.get('params', [])) == len(args) and all(pure(a) for a in args):
+                    sub = {p_['id']: a for p_, a in zip(lam['params'], args)}
+                    done[0] += 1
+                    return _clone(lam['body']['body'][0]['e'], {}, sub)
+        return n2
+    nb = rw(f.body)
+    return nb if done[0] else None
